@@ -33,3 +33,46 @@ func VP_C02_value() {
 	}
 	vp.Cover("end")
 }
+
+// generated documents (deeper and longer than arbitrary bytes reach): byte-exact re-encoding.
+func VP_C02_value_docs() {
+	tag := byte(1 + vp.Choice(12))
+	budget := 3 + vp.Tier()
+	b := vp.GenNBT(nil, tag, 0, &budget)
+	b = append(b, vp.Bytes(1)...) // something follows the document
+	vp.SizeBound(len(b) + 1)
+	st, end := vp.RefNBT(b, 0, tag, 0)
+	vp.Assert(st == vp.NBTComplete && end == len(b)-1, "generator produces well-formed documents")
+	var v Value
+	r := &vpByteReader{b: b, fail: -1}
+	vp.Assert(v.UnmarshalNBT(tag, r) == nil, "a well-formed value is accepted")
+	vp.Assert(r.pos == end, "exactly the value's bytes are consumed")
+	var w vpBuf
+	vp.Assert(v.MarshalNBT(&w) == nil, "MarshalNBT err==nil")
+	vp.Assert(len(w.b) == end, "re-encoding has the same length")
+	for i := 0; i < end && i < len(w.b); i++ {
+		vp.Assert(w.b[i] == b[i], "re-encoding is byte-exact")
+	}
+	vp.Cover("end")
+}
+
+// wide compounds (17 and 18 entries with arbitrary one-byte names and values).
+func VP_C02_value_wide() {
+	n := 17 + vp.Choice(2)
+	var b []byte
+	for i := 0; i < n; i++ {
+		b = append(b, 1, 0, 1)
+		b = append(b, vp.Bytes(2)...) // name byte, value byte
+	}
+	b = append(b, 0)
+	var v Value
+	r := &vpByteReader{b: b, fail: -1}
+	vp.Assert(v.UnmarshalNBT(10, r) == nil, "a well-formed value is accepted")
+	var w vpBuf
+	vp.Assert(v.MarshalNBT(&w) == nil, "MarshalNBT err==nil")
+	vp.Assert(len(w.b) == len(b), "re-encoding has the same length")
+	for i := 0; i < len(b) && i < len(w.b); i++ {
+		vp.Assert(w.b[i] == b[i], "re-encoding is byte-exact")
+	}
+	vp.Cover("end")
+}
